@@ -347,6 +347,7 @@ fn cmd_batch(args: &[String]) {
         "sample": sample,
         "violation": violation,
         "harness_error": harness_error,
+        "programs_rejected_by_the_parser": run::REJECTED.load(std::sync::atomic::Ordering::Relaxed),
         "hash_seam": if cfg!(cel_verif_hash) { "on" } else { "fallback" },
     });
     let text = serde_json::to_string(&summary).unwrap();
@@ -363,7 +364,9 @@ fn cmd_batch(args: &[String]) {
 }
 
 fn load_replay(path: &str) -> ReplayFile {
-    let text = std::fs::read_to_string(path).unwrap_or_else(|e| die(&format!("cannot read {}: {}", path, e)));
+    // lossy: a tree with memory-unsafe string handling can put invalid UTF-8 into reported values
+    let bytes = std::fs::read(path).unwrap_or_else(|e| die(&format!("cannot read {}: {}", path, e)));
+    let text = String::from_utf8_lossy(&bytes);
     serde_json::from_str(&text).unwrap_or_else(|e| die(&format!("cannot parse {}: {}", path, e)))
 }
 
@@ -472,9 +475,17 @@ fn cmd_miri_gen(args: &[String]) {
         for p in w.programs.iter_mut() {
             match astio::import(&p.src) {
                 Ok(a) => p.ast = Some(a),
-                Err(e) => {
-                    eprintln!("generator bug: `{}` does not parse: {}", p.src, e);
-                    ok = false;
+                Err(_) => {
+                    // rejected by the tree's parser: use a constant instead (C05 is not about compiling)
+                    p.src = "null".into();
+                    p.tree = None;
+                    match astio::import("null") {
+                        Ok(a) => p.ast = Some(a),
+                        Err(e) => {
+                            eprintln!("the tree under test cannot parse `null`: {}", e);
+                            ok = false;
+                        }
+                    }
                 }
             }
         }
